@@ -378,7 +378,8 @@ int __wrap_nanosleep(const struct timespec* req, struct timespec* rem) {
   if (!armed())
     return __real_nanosleep(req, rem);
   int64_t d = (int64_t)req->tv_sec * 1000000000LL + req->tv_nsec;
-  R.now_ns += d;
+  if (!R.plan.get("sleep_noadvance", false).asBool())
+    R.now_ns += d;
   record("sleep", "", "", "", d);
   probe("sleep");
   if (rem)
@@ -397,7 +398,8 @@ int __wrap_clock_nanosleep(clockid_t clk, int flags,
       base += 1700000000LL * 1000000000LL;
     d = d > base ? d - base : 0;
   }
-  R.now_ns += d;
+  if (!R.plan.get("sleep_noadvance", false).asBool())
+    R.now_ns += d;
   record("sleep", "", "", "", d);
   probe("sleep");
   if (rem)
